@@ -571,6 +571,9 @@ def gen_variation(t: Tape, j: int, pool_n: int) -> dict:
                         "chars": sorted({t.choose(len(c06_calls.UNI_CHARS), "var.ubc") for _ in range(6)})}),
         "tape": {"seed": t.choose(1 << 30, "var.tseed")},
     }
+    # the garbage collector is part of "which calls the process served earlier": weak registries, id()-keyed caches and
+    # __del__-time effects behave differently when cycles are (never / constantly / explicitly) collected
+    var["gc"] = t.weighted([("default", 5), ("disabled", 2), ("collect_each", 2), ("threshold1", 1)], "var.gc")
     if mode == "threads":
         var["threads"] = 2 + t.choose(3, "var.k")
         var["twin"] = bool(t.choose(2, "var.twin"))
@@ -600,6 +603,13 @@ def run_variation_child(var: dict, calls_by_id: dict, tape_values=None) -> dict:
     from . import loop as simloop
 
     os.chdir(cwd_path(var["cwd"]))
+    import gc as _gc
+
+    gcm = var.get("gc", "default")
+    if gcm == "disabled":
+        _gc.disable()
+    elif gcm == "threshold1" and var["mode"] != "threads":
+        _gc.set_threshold(1, 1, 1)
     clock = c06_calls.SimClock(var["epoch"], var.get("jumps"))
     c06_calls.install_clock(clock)
     tape = Tape(values=tape_values) if tape_values is not None else Tape(**({"values": var["tape"]["values"]} if "values" in var["tape"]
@@ -678,8 +688,12 @@ def run_variation_child(var: dict, calls_by_id: dict, tape_values=None) -> dict:
     if var["mode"] == "seq":
         for c in hist:
             c06_calls.exec_call_sync(c, sb)
+            if gcm == "collect_each":
+                _gc.collect()
         for c in probes:
             out[str(c["id"])] = c06_calls.exec_call_sync(c, sb)
+            if gcm == "collect_each":
+                _gc.collect()
     elif var["mode"] == "aio":
         delays = var.get("delays") or []
         everything = [(c, False) for c in hist] + [(c, True) for c in probes]
@@ -750,6 +764,8 @@ def dims_of(var: dict) -> list:
         d.append("dirorder")
     if var["cwd"] != "proj0":
         d.append("cwd")
+    if var.get("gc", "default") != "default":
+        d.append("gc")
     return d
 
 
@@ -949,7 +965,7 @@ def minimise(case: dict, clause: str, sig: str, budget: int = 40) -> dict:
             else:
                 break
     else:
-        steps = [("history", []), ("nasty_history", False), ("siblings", "none"), ("unibattery", None), ("mode", "seq"), ("jumps", []), ("epoch", E0), ("shuffle_dirs", False), ("cwd", "proj0")]
+        steps = [("history", []), ("nasty_history", False), ("siblings", "none"), ("unibattery", None), ("mode", "seq"), ("jumps", []), ("epoch", E0), ("shuffle_dirs", False), ("cwd", "proj0"), ("gc", "default")]
         for k, simple in steps:
             if cur["var"].get(k) != simple and runs < budget:
                 c = copy.deepcopy(cur)
